@@ -66,9 +66,14 @@ def p5_operator_table(chk):
     from mwlib.parser import expr
     p = expr.precedence
     chain = [("^", expr.UMinus), (expr.UMinus, expr.UPlus)]
-    ok = p["^"] == p[expr.UMinus] == p[expr.UPlus] > p["not"] == p["abs"] == p["floor"] == p["ceil"] == p["trunc"] > p["*"] == p["/"] == p["div"] == p["mod"] \
+    # the documented order (Help:Extension:ParserFunctions, #expr): e, unary + -; the functions; ^; * / div mod; + -; round;
+    # comparisons; and; or.  (Until round 7 this obligation had been written from the code, which had ^ above the
+    # functions: `floor 2.5 ^ 2` gave 6 instead of 4 - DESIGN 4 / 6.)
+    ok = p["e"] == p["E"] > p[expr.UMinus] == p[expr.UPlus] > p["not"] == p["abs"] == p["floor"] == p["ceil"] == p["trunc"] == p["sin"] == p["ln"] == p["exp"] \
+        > p["^"] > p["*"] == p["/"] == p["div"] == p["mod"] \
         > p["+"] == p["-"] > p["round"] > p["<"] == p[">"] == p["<="] == p[">="] == p["="] == p["!="] == p["<>"] > p["and"] > p["or"] > p["("]
-    chk.static("expr.precedence_chain", ok, "^ = unary > not/abs/floor/ceil/trunc > * / div mod > + - > round > comparisons > and > or")
+    chk.static("expr.precedence_chain", ok, "e > unary + - > not/abs/floor/ceil/trunc/sin/ln/exp > ^ > * / div mod > + - > round > comparisons > and > or",
+               {"precedence": {str(k): v for k, v in p.items()}}, "precedence", None if ok else False)
     chk.static("expr.unary_operators", {expr.UMinus, expr.UPlus, "not", "abs", "floor", "ceil", "trunc"} <= expr.unary_ops
                and not ({"+", "-", "*", "/", "and", "or", "=", "<"} & expr.unary_ops), str(sorted(map(str, expr.unary_ops))))
     # (left association of the pop condition is the contract p7_precedence_pop, not a text match)
@@ -78,7 +83,7 @@ def p5_operator_table(chk):
 BIN = ["+", "-", "*", "/", "mod", "^", "<", ">", "=", "!=", "and", "or"]
 UN = ["-", "not", "abs", "floor", "ceil", "trunc"]
 LEAVES = ["0", "1", "2", "3", "7", "2.5", "0.5", "10"]
-PREC = {"or": 2, "and": 3, "<": 4, ">": 4, "=": 4, "!=": 4, "+": 6, "-": 6, "*": 8, "/": 8, "mod": 8, "^": 10}
+PREC = {"or": 2, "and": 3, "<": 4, ">": 4, "=": 4, "!=": 4, "+": 6, "-": 6, "*": 8, "/": 8, "mod": 8, "^": 9}   # word functions: 10, unary + -: 11 (documented order)
 
 
 def ev(t):
@@ -98,7 +103,7 @@ def ev(t):
 
 def ser(t, minimal, parent=None, right=False):
     """minimal = only the parentheses the precedence rules need.  Word prefix operators (not abs floor ceil
-    trunc, precedence 9) bind looser than ^ (10): `floor (a + b) ^ 2` is floor((a+b)^2)."""
+    trunc) bind tighter than every binary operator, ^ included: `floor 2.5 ^ 2` is (floor 2.5) ^ 2."""
     if isinstance(t, str):
         return t
     if len(t) == 2:
@@ -114,7 +119,7 @@ def ser(t, minimal, parent=None, right=False):
         if parent is None or parent[0] == "unw":
             return s
         pop, side = parent
-        if pop != "un" and pop != "^" and side == "l":
+        if pop != "un" and side == "l":
             return s                      # `floor x + 1` is (floor x) + 1: the binary operator pops the prefix operator
         return "(" + s + ")"
     op, a, b = t
@@ -127,7 +132,7 @@ def ser(t, minimal, parent=None, right=False):
     if pop == "un":
         return "(" + s + ")"
     if pop == "unw":
-        return s if PREC[op] > 9 else "(" + s + ")"
+        return s if PREC[op] > 10 else "(" + s + ")"
     if PREC[op] > PREC[pop] or (PREC[op] == PREC[pop] and side == "l"):
         return s
     return "(" + s + ")"
@@ -213,6 +218,14 @@ CASES = [
     ({"T": "{{{1|def}}}"}, "{{T}}", "def"),
     ({"T": "{{{1|def}}}"}, "{{T|}}", ""),
     ({"A": "<{{B|{{{1}}}}}>", "B": "({{{1}}})"}, "{{A|z}}", "<(z)>"),
+    # a parameter default is text like any other: blanks at its ends stay (also next to a nested call / parameter)
+    ({"T": "[{{{1| {{U}} }}}]", "U": "x"}, "{{T}}", "[ x ]"),
+    ({"T": "[{{{1| }}}]"}, "{{T}}", "[ ]"),
+    ({"T": "[{{{1| d }}}]"}, "{{T}}", "[ d ]"),
+    ({"T": "[{{{x| {{{y| e }}} }}}]"}, "{{T}}", "[  e  ]"),
+    ({"T": "[{{{1|\n{{U}}\n}}}]", "U": "x"}, "{{T}}", "[\nx\n]"),
+    ({"T": "[{{{1| {{#if: 1 | y }} }}}]"}, "{{T}}", "[ y ]"),
+    ({"T": "[{{{1| {{U}} }}}]", "U": "x"}, "{{T|b}}", "[b]"),
     ({}, "{{#if: x | yes | no }}", "yes"),
     ({}, "{{#if:  | yes | no }}", "no"),
     ({}, "{{#if: x | yes }}{{#if: | yes }}", "yes"),
@@ -243,6 +256,15 @@ CASES = [
     ({}, "{{#expr: 7 - 2 - 1 }}", "4"),
     ({}, "{{#expr: - 2 ^ 2 }}", "4"),
     ({}, "{{#expr: not 0 and 1 }}", "1"),
+    ({}, "{{#expr: floor 2.5 ^ 2 }}", "4"),
+    ({}, "{{#expr: ceil 1.2 ^ 2 }}", "4"),
+    ({}, "{{#expr: trunc 1.5 ^ 2 }}", "1"),
+    ({}, "{{#expr: not 0 ^ 0 }}", "1"),
+    ({}, "{{#expr: 2 * 3 ^ 2 }}", "18"),
+    ({}, "{{#expr: - 3 ^ 2 }}", "9"),
+    ({}, "{{#expr: 2 and 3 }}", "1"),
+    ({}, "{{#expr: (2 and 3) + 1 }}", "2"),
+    ({}, "{{#expr: 0 or 0.5 }}", "1"),
 ]
 
 
